@@ -321,6 +321,47 @@ fn run(defs: &[Def]) -> Result<Outcome, V> {
                 }
             }
         }
+        // a FULL account snapshot of this exchange: every own balance and every own instrument, plus ONE entry the
+        // link is not configured for (dust of an untracked asset / an instrument traded by hand) at every position.
+        // It is either refused as a whole or every configured entry of it is applied to the asset / instrument it
+        // names - never accepted with configured entries missing.
+        {
+            let mk_bal = |name: &AssetNameExchange| AssetBalance { asset: name.clone(), balance: Balance::new(Decimal::ONE, Decimal::ONE), time_exchange: fixtures::t(1) };
+            let mk_ins = |name: &InstrumentNameExchange| InstrumentAccountSnapshot { instrument: name.clone(), orders: vec![] };
+            let stranger_asset = AssetNameExchange::from("NOT-CONFIGURED-ASSET");
+            let stranger_instr = InstrumentNameExchange::from("NOT-CONFIGURED-INSTRUMENT");
+            let want_assets: Vec<AssetIndex> = own_assets.iter().map(|(_, i)| *i).collect();
+            let want_instrs: Vec<InstrumentIndex> = own_names.iter().map(|(_, i)| *i).collect();
+            for pos in 0..=own_assets.len().max(own_names.len()) {
+                for strange_balance in [true, false] {
+                    let mut balances: Vec<_> = own_assets.iter().map(|(n, _)| mk_bal(n)).collect();
+                    let mut instruments: Vec<_> = own_names.iter().map(|(n, _)| mk_ins(n)).collect();
+                    if strange_balance {
+                        balances.insert(pos.min(balances.len()), mk_bal(&stranger_asset));
+                    } else {
+                        instruments.insert(pos.min(instruments.len()), mk_ins(&stranger_instr));
+                    }
+                    out.checks += 1;
+                    match indexer.snapshot(UnindexedAccountSnapshot { exchange: e_id, balances, instruments }) {
+                        Err(_) => out.cells.push("full_snapshot_with_unconfigured_entry:refused_as_a_whole"),
+                        Ok(snap) => {
+                            let got_assets: Vec<AssetIndex> = snap.balances.iter().map(|b| b.asset).collect();
+                            let got_instrs: Vec<InstrumentIndex> = snap.instruments.iter().map(|i| i.instrument).collect();
+                            if want_assets.iter().any(|a| !got_assets.contains(a)) || want_instrs.iter().any(|i| !got_instrs.contains(i)) || snap.exchange != e_idx {
+                                return Err((
+                                    "account_snapshot_accepted_with_configured_entries_missing",
+                                    format!(
+                                        "indexer of {e_id}: a full account snapshot with an unconfigured {} at position {pos} was accepted; balances indexed {got_assets:?} (own assets {want_assets:?}), instruments indexed {got_instrs:?} (own instruments {want_instrs:?})",
+                                        if strange_balance { "balance" } else { "instrument entry" }
+                                    ),
+                                ));
+                            }
+                            out.cells.push("full_snapshot_with_unconfigured_entry:configured_entries_all_applied");
+                        }
+                    }
+                }
+            }
+        }
         // inbound events TAGGED with another exchange (a sibling venue sharing asset / instrument names, or one
         // the engine does not track at all) never translate on this link - whichever entry point they take
         {
@@ -640,6 +681,7 @@ fn main() {
             "duplicate_definition_in_input",
             "names_differing_only_in_case_on_one_exchange",
             "inbound_event_tagged_with_another_exchange",
+            "full_snapshot_with_unconfigured_entry:refused_as_a_whole",
             "builder:request_reached_own_client",
             "builder:linked_exchange_after_an_unlinked_one",
             "builder:exchange_without_link_routes_nowhere",
